@@ -40,6 +40,12 @@ The violation must be shown through the public behaviour named in the property (
   - or break the repair's own assumptions (the fix sorts / copies / converts something: feed it the case where sorting / copying / converting is not enough);
   - if none of the repairs is related to your property, fall back to any change of the kinds asked for in earlier rounds that is not in the list below.
 Say in notes.md which repair (commit hash) your change undermines.""",
+    11: """This is the ELEVENTH round for this property; single features, interactions, values / names / identity, environments, lifecycles and partial regressions of the recent repairs have been covered (see the list below). This round is about THRESHOLDS, SIZES and COUNTS: make a SMALL and SUBTLE change (ideally <= 6 changed lines) that is correct for everything small and only breaks the property BEYOND A THRESHOLD - the kind of mistake that comes with an optimisation, a bounded cache, batching, a hard-coded limit or an off-by-one that small examples never reach:
+  - size of the DAG: more than 16 / 32 / 64 / 100 nodes, a level wider than max_concurrency * k, a chain deeper than 50 / the recursion limit, more than 9 usages of one function (`f<<9>>` vs `f<<10>>`), more than 5 positional / keyword arguments or dependencies of one node, nesting deeper than 2 or 3 levels, more than 3 DAGs nested in one outer DAG, many setup / debug nodes, many tags on one node, many nodes under one tag;
+  - counts over time: the 10th / 100th call of one DAG object, more than 8 executors of one DAG, more than 32 / 128 DAGs built in one process (`functools.lru_cache(maxsize=...)` or a dict that is trimmed), many reloads of a configuration, many awaits of one AsyncDAG in one loop (more than the default executor's workers, more than 100 tasks);
+  - magnitudes: priorities >= 1000 or beyond 2**31 / 2**63 or floats, max_concurrency >= 9 or larger than the number of nodes, very long ids / tags, large results (a pickle beyond 64 KiB in the cache file), unpack_to >= 4, key paths longer than 2;
+  - batching / chunking: submitting nodes in groups of k, waiting for groups, `itertools.islice`, slices like `[:32]`, `heapq.nlargest(k, ...)`, `sorted(...)[:k]`, early exits after k iterations.
+The demo may of course use the size it needs; keep its run time under a minute.""",
 }
 
 
